@@ -43,6 +43,37 @@ class TickerModel:
                         whole = True     # iterating all shards (clear)
                 args = [f.op_origin(a) for a in t["args"][1:]]
                 self.ops.append({"fn": f, "bb": bb, "kind": kind, "shard_arg": shard_arg, "args": args, "term": t, "whole": whole})
+        # effective operations: a ticker function that delegates to other ticker functions performs their
+        # operations, with its own arguments substituted (so `update = delete(old); put(new)` is seen as remove+insert)
+        from core import subst_params
+        direct = list(self.ops)
+        by_fn = {}
+        for o in direct:
+            by_fn.setdefault(o["fn"].name, []).append(o)
+        for _ in range(3):
+            added = False
+            for name, f in F.fns.items():
+                if f.kind == "Closure":
+                    continue
+                for bb, t in f.calls():
+                    g = t.get("rpath")
+                    if g in by_fn and g != name and t["res"] == "item":
+                        args = [f.op_origin(a) for a in t["args"]]
+                        for o in by_fn[g]:
+                            if o["whole"]:
+                                continue
+                            eo = {"fn": f, "bb": bb, "kind": o["kind"], "whole": False, "term": t, "via": g,
+                                  "shard_arg": subst_params(o["shard_arg"], args) if o["shard_arg"] is not None else None,
+                                  "args": [subst_params(a, args) for a in o["args"]]}
+                            key = (name, bb, o["kind"], repr(eo["shard_arg"]))
+                            if key not in {(x["fn"].name, x["bb"], x["kind"], repr(x["shard_arg"])) for x in by_fn.get(name, [])}:
+                                # only for functions of the ticker type itself (callers outside are clients)
+                                if f.argc >= 1 and short in f.locals[1]["ty"]:
+                                    by_fn.setdefault(name, []).append(eo)
+                                    added = True
+            if not added:
+                break
+        self.ops = [o for os_ in by_fn.values() for o in os_]
         self.register_fns = {o["fn"].name for o in self.ops if o["kind"] == "insert"}
         self.unregister_fns = {o["fn"].name for o in self.ops if o["kind"] == "remove"} - self.register_fns
         self.move_fns = {o["fn"].name for o in self.ops if o["kind"] == "remove"} & self.register_fns
